@@ -112,7 +112,7 @@ def apply_resultpath_contract():
 
 def merge_result_contract():
     return Contract(
-        SE + "merge_result", types={"data": "json", "context": "json", "result": "json", "state": "dict", "output_path": "strnone"},
+        SE + "merge_result", types={"data": "any", "context": "any", "result": "any", "state": "dict", "output_path": "strnone"},
         ensures=[
             # ResultPath into the data, then OutputPath (or the caller's override when it is truthy)
             ("C01,C12:resultpath-then-outputpath",
